@@ -12,7 +12,7 @@ LEVEL = 'model_checking'
 RULE = ('program = (handler shape of e0, e1, e2[, e3]) x (one or two root events in flight) x (task stepping order fifo/lifo) '
         'x optional timeout; callers: call by object, wait by name, wait by object, two calls in sequence, call then yield, '
         'yield then call; callees: return v/None, raise, generators yielding 1-2 times, raising before/after first yield, '
-        'two handlers; each program executed once under the real run(); non-trivial = every program (each suspends at least '
+        'two handlers (one or both of them generators suspended at the same time); each program executed once under the real run(); non-trivial = every program (each suspends at least '
         'one caller); distinct = distinct program')
 ASSUMPTIONS = [
     'acyclic call structure: a handler of e<i> only calls e<i+1>',
@@ -21,7 +21,7 @@ ASSUMPTIONS = [
     'residue is read from Manager._handlers/_tasks through getattr; if absent the clause is judged by firing the temporary names',
 ]
 
-LEAF = ['R', 'N', 'X', 'G1', 'G2', 'GX0', 'GX1', 'RG', 'XG', 'GA', 'GB', 'NOH', 'R0', 'G0']
+LEAF = ['R', 'N', 'X', 'G1', 'G2', 'GX0', 'GX1', 'RG', 'XG', 'GA', 'GB', 'NOH', 'R0', 'G0', 'GG']
 CALLER = ['call', 'waitn', 'waito', 'call2', 'cally', 'ycall', 'cally0', 'callwait', 'waitcall']
 SLOW = ['S0', 'S1', 'S2', 'S3', 'S4']   # callee lasting k loop iterations (timeout programs)
 
@@ -54,6 +54,8 @@ def leaf_handlers(level, shape):
         return [(h + 'a', t, 2, [('ret', b + 1)]), (h + 'b', t, 1, ('gen', [('y', b + 5)]))]
     if shape == 'XG':
         return [(h + 'a', t, 2, [('raise',)]), (h + 'b', t, 1, ('gen', [('y', None), ('y', b + 5)]))]
+    if shape == 'GG':   # two handlers of the callee event suspended at the same time, finishing one after the other
+        return [(h + 'a', t, 2, ('gen', [('y', None), ('y', b + 5)])), (h + 'b', t, 1, ('gen', [('y', None), ('y', None), ('y', b + 6)]))]
     if shape == 'GA':   # first instance slow, second fast (asymmetric callers in flight)
         return [(h, t, 2, ('gen', [('yvar', (3, 0)), ('y', b + 5)]))]
     if shape == 'GC':
